@@ -478,6 +478,7 @@ pub struct C04 {
     pub saw_add_recycled_dirty: bool,
     twin_dead: bool,
     dirty_ids: BTreeSet<usize>,
+    uniq: u64,
 }
 
 impl C04 {
@@ -489,6 +490,7 @@ impl C04 {
             saw_add_recycled_dirty: false,
             twin_dead: false,
             dirty_ids: BTreeSet::new(),
+            uniq: 0,
         }
     }
     fn twin_apply(&mut self, op: &Op) -> Result<Ret, String> {
@@ -576,8 +578,20 @@ impl HistMonitor for C04 {
             }
         }
         let _ = redundant;
+        // hand-overs (the history goes on with a clone / a reloaded image): the twin does the same
+        if !self.twin_dead && matches!(op, Op::Clone { swap: true } | Op::SaveLoad { swap: true }) {
+            let ok = o.panic.is_none() && !matches!(&o.ret, Ret::Res(Err(_)));
+            let r = if ok { crate::rec::exec_raw(&mut self.twin, op, &s.workdir, &mut self.uniq, &ctx.labels) } else { Err(String::new()) };
+            match r {
+                Ok(Ret::Res(Err(_))) | Err(_) => {
+                    self.twin_dead = true;
+                    ctx.c.inc("c04.twin-dropped-at-a-failed-hand-over");
+                }
+                Ok(_) => ctx.c.inc("c04.hand-overs-to-a-clone-or-reloaded-image"),
+            }
+        }
         // twin: same history minus the redundant adds (fresh adds were applied above)
-        if !self.twin_dead && !matches!(op, Op::Add(_)) {
+        if !self.twin_dead && !matches!(op, Op::Add(_) | Op::Clone { .. } | Op::SaveLoad { .. }) {
             match self.twin_apply(op) {
                 Ok(r) => {
                     let same = match (&r, &o.ret) {
